@@ -110,6 +110,7 @@ def plan(prop, tier, seed):
             K=2 if q else 3, lazies=(True, False))
         add(['multi_shift', 'multi_shift_rev'], K=3, lazies=(True,))
         add(['ent2hy', 'async2hy', 'ev2_late', 'selfloop'], K=2 if q else 3)
+        add(['hyb2_init', 'tb_ev_init', 'ev2_init2'], K=2 if q else 3, lazies=(True,) if q else (True, False))
         add(['loopfeed'], K=2, until=3, caches=(True,), masks='extremes', extra={'no_self': ['A', 'B'], 'future_outputs': True})
         add(['sibloop_ev'], K=3, until=2, masks='all', extra={'no_self': ['A', 'B']})
         add(['hyb2', 'ev2', 'tb_ev'], K=2 if q else 3, lazies=(True,), extra={'future_outputs': True})
@@ -138,6 +139,7 @@ def plan(prop, tier, seed):
             lazies=(True,) if q else (True, False))
         add(['chain3ev', 'reenter', 'nested', 'shortcut3'] if q else three, K=2, lazies=(True, False) if not q else (True,))
         add(['tb2', 'hyb2', 'evloop'], K=2 if q else 3, until='symnc', caches=(False,), lazies=(True, False))
+        add(['hyb2_init', 'ev2_init2'], K=2, caches=(True,))
         add(['tworoutes', 'tworoutes_flat'], K=2, until=2, caches=(True,), masks='extremes', extra={'no_self': ['A', 'B', 'C', 'D']})
         add(['weak4'], K=2, until=2, caches=(True,), lazies=(True, False), masks='extremes', extra={'no_self': ['P', 'Q', 'R', 'D']})
         add(['sibloop', 'loopfeed'], K=2, until=2, caches=(True,), masks='extremes', extra={'no_self': ['A', 'B']})
